@@ -229,6 +229,17 @@ func sessionC09(r *vk.Run, rng *rand.Rand, wkr, idx int) {
 		fzfArgs = append(fzfArgs, "--info=inline")
 		promptLines = 1
 	}
+	track := rng.Intn(4) == 0
+	if track {
+		fzfArgs = append(fzfArgs, "--track")
+	}
+	noInput := rng.Intn(6) == 0
+	if noInput {
+		// the input section (prompt and info) is hidden and the query cannot be edited: navigation and
+		// selection must work as ever, over the whole window
+		fzfArgs = append(fzfArgs, "--no-input")
+		promptLines = 0
+	}
 	maxItems := rows - promptLines
 	if maxItems < 0 {
 		maxItems = 0
@@ -254,6 +265,12 @@ func sessionC09(r *vk.Run, rng *rand.Rand, wkr, idx int) {
 	var hist []string
 	nsteps := 10 + rng.Intn(50)
 	sig := fmt.Sprintf("%s multi%d cycle%v n%d rows%d", layout, limitClass(limit), cycle, nitems, rowsClass(rows))
+	if track {
+		sig += " track"
+	}
+	if noInput {
+		sig += " no-input"
+	}
 	fail := func(what string, st *tty.Status, extra map[string]any) {
 		w := map[string]any{"fzf_args": fzfArgs, "items": nitems, "rows": rows, "history": hist, "model": map[string]any{"query": string(ed.in), "cursor": ed.cx, "yanked": string(ed.yanked), "position": cy, "selected": sel.order, "list_length": L}}
 		if st != nil {
@@ -267,7 +284,7 @@ func sessionC09(r *vk.Run, rng *rand.Rand, wkr, idx int) {
 	for k := 0; k < nsteps; k++ {
 		var act, arg string
 		switch c := rng.Intn(10); {
-		case c < 4:
+		case c < 4 && !noInput:
 			act = editActs[rng.Intn(len(editActs))]
 		case c < 7:
 			act = navActs[rng.Intn(len(navActs))]
@@ -340,6 +357,15 @@ func sessionC09(r *vk.Run, rng *rand.Rand, wkr, idx int) {
 			}
 			L = st.MatchCount
 			cy = st.Position // re-anchor
+			if track && curIdx >= 0 && st.Current != nil && st.Current.Index != curIdx {
+				// --track: the cursor follows the current item when the list is updated, if it is still listed
+				for _, m := range st.Matches {
+					if m.Index == curIdx {
+						fail(fmt.Sprintf("--track: item %d was current and is still listed after the query change, but the cursor is on item %d", curIdx, st.Current.Index), st, nil)
+						return
+					}
+				}
+			}
 		} else if !isEdit {
 			cy = navigate(act, arg, cy, L, layout, cycle, maxItems)
 			applySelection(act, sel, st, curIdx, L, limit, &cy, layout, cycle)
@@ -391,7 +417,7 @@ func sessionC09(r *vk.Run, rng *rand.Rand, wkr, idx int) {
 	// sometimes the query is first changed to something that matches nothing: the selection survives,
 	// there is no current line any more
 	finalQuery := string(ed.in)
-	if rng.Intn(4) == 0 {
+	if rng.Intn(4) == 0 && !noInput {
 		finalQuery = "zzzqqq"
 		s.Post("change-query(" + finalQuery + ")")
 		hist = append(hist, "change-query("+finalQuery+")")
